@@ -50,6 +50,39 @@ def c03(p):
         "p=np.float64(0.9)": lambda: W.whits(nodata=-9999, sg=sg, p=np.float64(0.9)),
         "s given as well (sg wins)": lambda: W.whits(nodata=-9999, sg=sg, s=None, p=0.9),
     })
+    c03_stale(p)
+
+
+def _zero_marked(da):
+    """The cube with its gaps written as 0 and WITHOUT a nodata attribute (where / astype keep attributes)."""
+    d = da.where(da != -9999, 0).astype("int16")
+    d.attrs = {}
+    return d
+
+
+def c03_stale(p):
+    da0 = _zero_marked(_cube())
+    for kw in ({"s": 10.0}, {"s": 10.0, "p": 0.9}):
+        spellings.explore(p, SUB, f"whits(nodata=0, {kw}) on an object without nodata attribute", lambda: da0.copy().hdc.whit.whits(nodata=0, **kw), {
+            "the object carries attrs nodata=-9999": lambda: da0.assign_attrs(nodata=-9999).hdc.whit.whits(nodata=0, **kw),
+            "the object carries attrs nodata=7": lambda: da0.assign_attrs(nodata=7).hdc.whit.whits(nodata=0, **kw),
+            "nodata=0.0": lambda: da0.copy().hdc.whit.whits(nodata=0.0, **kw),
+            "nodata=np.int16(0)": lambda: da0.copy().hdc.whit.whits(nodata=np.int16(0), **kw),
+            "nodata=False-like np.float32(0)": lambda: da0.copy().hdc.whit.whits(nodata=np.float32(0), **kw),
+        })
+
+
+def c04_stale(p):
+    da0 = _zero_marked(_cube())
+    sr = np.arange(-2.0, 2.5, 0.5)
+    for kw in ({"srange": sr}, {"srange": sr, "p": 0.9}):
+        spellings.explore(p, SUB, f"whitsvc(nodata=0, srange{', p=0.9' if 'p' in kw else ''}) on an object without nodata attribute",
+                          lambda: da0.copy().hdc.whit.whitsvc(nodata=0, **kw), {
+                              "the object carries attrs nodata=-9999": lambda: da0.assign_attrs(nodata=-9999).hdc.whit.whitsvc(nodata=0, **kw),
+                              "the object carries attrs nodata=7": lambda: da0.assign_attrs(nodata=7).hdc.whit.whitsvc(nodata=0, **kw),
+                              "nodata=0.0": lambda: da0.copy().hdc.whit.whitsvc(nodata=0.0, **kw),
+                              "nodata=np.int16(0)": lambda: da0.copy().hdc.whit.whitsvc(nodata=np.int16(0), **kw),
+                          })
 
 
 def c04(p):
@@ -65,6 +98,7 @@ def c04(p):
         "p=None explicitly": lambda: W.whitsvc(nodata=-9999, srange=sr, p=None),
     })
     c04_lc(p)
+    c04_stale(p)
     sri = np.arange(-2.0, 3.0)
     spellings.explore(p, SUB, "whitsvc(nodata=-9999, srange=[-2..2], p=0.9)", lambda: W.whitsvc(nodata=-9999, srange=sri, p=0.9), {
         "srange int64": lambda: W.whitsvc(nodata=-9999, srange=np.arange(-2, 3), p=0.9),
